@@ -1963,6 +1963,14 @@ def gen_C16(rng, tier):
                 if so: ops.append("ss:0:%s" % datum_state(rng, 5))
                 if sp: ops.append("ss:1:%s" % datum_state(rng, 7))
                 L.append("dv free:2 -- %s" % " ".join(ops + ["ra"]))
+    # the same reads while the caller holds a mutable borrow of the terminal itself, of its partner, or of an unrelated terminal:
+    # a RefCell borrow error (panic) in the first two cases — never an answer assembled from slots that were not written
+    for so in (0, 1):
+        for sp in (0, 1):
+            pre = (["ss:0:%s" % datum_state(rng, 5)] if so else []) + (["ss:1:%s" % datum_state(rng, 7)] if sp else [])
+            for j in (0, 1, 2):
+                L.append(" ".join(["dv free:3 -- c:0:1"] + pre + ["rb:0:%d" % j]))
+            L.append(" ".join(["dv free:3 --"] + pre + ["rb:0:1 rb:0:2 rb:1:0"]))
     for n in range(0, 9):
         for k in sorted(set([0, max(0, n - 1), n, n + 1, n + 7])):
             L.append("dv axlegt %d %d" % (n, k))       # indexing a terminal: in range ok, out of range must panic
@@ -2003,6 +2011,10 @@ def rf_ext_line(rng, v):
     hs = [dict(own=counted, dyn=False, var=v)]
     freed = False
     evs = []
+    held = []            # (handle, exclusive?) of the borrows kept alive (rc only); readers / writer = the RefCell's dynamic state
+    def panics_on(kind):   # would this access be refused by the RefCell right now?
+        w = any(x for _, x in held)
+        return w if kind == "r" else (w or len(held) > 0)
     def drop_one(x):
         nonlocal freed
         if counted and x["own"] and not any(h and h["own"] for h in hs):
@@ -2013,6 +2025,21 @@ def rf_ext_line(rng, v):
             break
         h = rng.choice(live)
         r = rng.random()
+        if v == "rc" and rng.random() < 0.22:
+            # keep a borrow alive / release the innermost one
+            if held and rng.random() < 0.45:
+                held.pop(); evs.append("hx"); continue
+            if hs[h]["own"] and not freed:
+                excl = rng.random() < 0.5
+                evs.append("%s:%d" % ("hm" if excl else "hr", h))
+                if panics_on("w" if excl else "r"):
+                    return "rf %s %s" % (v, " ".join(evs))      # the RefCell refuses: PANIC ends the line
+                held.append((h, excl)); continue
+        is_held = any(x == h for x, _ in held)
+        if held and not hs[h]["own"] and 0.52 <= r < 0.78:
+            continue            # no access through a raw alias while a borrow is held
+        if is_held and (r >= 0.78 and r < 0.92):
+            continue            # a handle with a borrow held through it is not dropped
         if r < 0.13:
             evs.append("cl:%d" % h); hs.append(dict(hs[h]))
         elif r < 0.23:
@@ -2022,6 +2049,8 @@ def rf_ext_line(rng, v):
                 return "rf %s %s" % (v, " ".join(evs))          # PANIC:unimpl ends the line
             n = dict(hs[h]); n["dyn"] = True
             if op == "dm":
+                if is_held:
+                    evs.pop(); continue
                 hs[h] = None
             hs.append(n)
         elif r < 0.36:
@@ -2030,7 +2059,7 @@ def rf_ext_line(rng, v):
             evs.append("al:%d" % h); hs.append(n)
         elif r < 0.52:
             cands = [j for j in live if j != h and hs[j]["dyn"] == hs[h]["dyn"]]
-            if not cands: continue
+            if not cands or is_held: continue
             j = rng.choice(cands)
             old = hs[h]
             hs[h] = dict(hs[j])
@@ -2039,12 +2068,15 @@ def rf_ext_line(rng, v):
         elif r < 0.64:
             if freed: continue
             evs.append("rd:%d" % h)
+            if panics_on("r"): return "rf %s %s" % (v, " ".join(evs))
         elif r < 0.72:
             if freed: continue
             evs.append("wr:%d:%d" % (h, rng.randint(-1000, 1000)))
+            if panics_on("w"): return "rf %s %s" % (v, " ".join(evs))
         elif r < 0.78:
             if freed: continue
             evs.append("inc:%d" % h)
+            if panics_on("w"): return "rf %s %s" % (v, " ".join(evs))
         elif r < 0.92:
             x = hs[h]; hs[h] = None
             drop_one(x)
@@ -2090,6 +2122,13 @@ def gen_C17(rng, tier):
         L.append("rf %s dm:0 rd:1 live" % v)
         for _ in range(n_of(tier, 150, 1500)):
             L.append(rf_ext_line(rng, v))
+    # a RefCell-backed Reference: a borrow kept alive makes a conflicting borrow panic (never hands out a second, unchecked access), and
+    # does NOT stand in the way of clone / to_dyn! / drop of other handles
+    for held_kind, inner in (("hr", "rd:0 rd:1"), ("hr", "wr:1:5"), ("hm", "rd:1"), ("hm", "wr:0:3"), ("hr", "hm:1"), ("hm", "hr:1"), ("hr", "hr:1 rd:0 hx wr:0:2")):
+        L.append("rf rc cl:0 %s:0 %s hx rd:0 live" % (held_kind, inner))
+    for held_kind in ("hr", "hm"):
+        L.append("rf rc cl:0 %s:0 dy:1 cl:1 dm:1 al:2 dr:2 hx rd:3 live" % held_kind)
+        L.append("rf rc %s:0 dy:0 hx inc:1 rd:0 live" % held_kind)
     # clone_from onto a raw alias must make it an owner: every counted variant, with and without further clones, source dropped afterwards
     for v in ["rc", "arw", "amx"]:
         L.append("rf %s al:0 cf:1:0 dr:0 live rd:1 wr:1:5 rd:1 dr:1 live" % v)
